@@ -208,3 +208,105 @@ contract('mapproxy.layer:MapQuery.dimensions_for_params', props=['C17'],
                   _dims_exact],
          fuzz_gen=_gen_dims_for, bounded=dict(n=3000, seconds=5),
          must_fail='len(result) == 0')
+
+
+# ---- tile upstreams: gated like WMS sources; the address requested is a tile of the SOURCE grid ------------------------------
+TS = 'mapproxy.source.tile:'
+cls(TS + 'TiledSource', fields=dict(grid='opaque', client='opaque', image_opts='opaque', coverage='opt[opaque]', extent='opaque',
+                                    res_range='opt[opaque]', error_handler='opt[opaque]', supports_meta_tiles='opaque'))
+
+
+def _tile_source_protocol(ex, st, post, result):
+    import z3
+    from pyvc.values import eq, VSeq
+    self_ = post.env['self']
+    q = post.env['query']
+    h = st.heap[self_.ref]
+    gets = [(i, e) for i, e in T.evs(st, 'get_tile')]
+    if not gets:
+        return
+    i_g, g = gets[0]
+    aff = [(i, e) for i, e in T.evs(st, 'get_affected_tiles') if i < i_g and not e.raised]
+    nxt = [(i, e) for i, e in T.evs(st, 'next') if i < i_g]
+    cov, rr = h['coverage'], h['res_range']
+    inter = [c for j, c in T.evs(st, 'intersects') if j < i_g and c.recv is not None and c.recv.t.eq(cov.val.t) and len(c.args) == 2]
+    cont = [c for j, c in T.evs(st, 'contains') if j < i_g and c.recv is not None and c.recv.t.eq(rr.val.t) and len(c.args) == 3]
+    g1 = z3.Not(ex.truth(st, cov))
+    for c in inter:
+        g1 = z3.Or(g1, z3.And(ex.truth(st, c.result), eq(c.args[0], ex.opaque_field_at(st, c, q, 'bbox')), eq(c.args[1], ex.opaque_field_at(st, c, q, 'srs'))))
+    g2 = z3.Not(ex.truth(st, rr))
+    for c in cont:
+        g2 = z3.Or(g2, z3.And(ex.truth(st, c.result), eq(c.args[0], ex.opaque_field_at(st, c, q, 'bbox')),
+                              eq(c.args[1], ex.opaque_field_at(st, c, q, 'size')), eq(c.args[2], ex.opaque_field_at(st, c, q, 'srs'))))
+    # the source grid is the grid of the request: same tile size, same SRS (otherwise the source refuses)
+    grid_ = h['grid']
+    same_grid = z3.And(eq(ex.opaque_field_at(st, g, grid_, 'tile_size'), ex.opaque_field_at(st, g, q, 'size')),
+                       eq(ex.opaque_field_at(st, g, grid_, 'srs'), ex.opaque_field_at(st, g, q, 'srs')))
+    yield ('tile_source_only_for_its_own_grid', same_grid,
+           'a tile is requested upstream only if the query has the tile size and the SRS of the source grid')
+    yield ('tile_source_gated_by_coverage_and_res_range', z3.And(z3.BoolVal(len(gets) == 1), g1, g2),
+           'the tile upstream is contacted once, and only if its coverage intersects the request and its resolution range contains it')
+    ok = len(aff) == 1 and aff[0][1].recv is not None and hasattr(h['grid'], 't') and aff[0][1].recv.t.eq(h['grid'].t) \
+        and isinstance(aff[0][1].result, VSeq) and isinstance(aff[0][1].result.items[2], VSeq) and hasattr(g.args[0], 't')
+    g3 = z3.BoolVal(bool(ok))
+    if ok:
+        grid_shape = aff[0][1].result.items[1]
+        first = aff[0][1].result.items[2].elem(z3.IntVal(0))
+        g3 = z3.And(g3, g.args[0].t == first.t)         # next(tiles): the first (only) tile of the list
+        g3 = z3.And(g3, eq(aff[0][1].args[0], ex.opaque_field_at(st, aff[0][1], q, 'bbox')), eq(aff[0][1].args[1], ex.opaque_field_at(st, aff[0][1], q, 'size')),
+                    # exactly one tile of the source grid covers the request
+                    grid_shape.items[0].t == 1, grid_shape.items[1].t == 1,
+                    eq(g.kwargs.get('format'), ex.opaque_field_at(st, g, q, 'format')) if g.kwargs.get('format') is not None else z3.BoolVal(False))
+    yield ('requested_address_is_a_tile_of_the_source_grid', g3,
+           'the address sent upstream is the single tile that self.grid.get_affected_tiles(query.bbox, query.size) reports (a 1 x 1 '
+           'block): a tile that exists in the source grid (C03: get_affected_level_tiles lists only in-grid tiles)')
+
+
+contract(TS + 'TiledSource.get_map', props=['C17'],
+         types=dict(query='opaque'), returns='opaque', default_callee='opaque',
+         opaque_fields=dict(QF, tile_size='tuple[int,int]'), stable_fields=['bbox', 'size', 'srs', 'format', 'tile_size'],
+         opaque_spec={'contains': {'returns': 'bool', 'pure': True}, 'intersects': {'returns': 'bool', 'pure': True},
+                      'get_affected_tiles': {'returns': 'tuple[opaque,tuple[int,int],list[opaque]]', 'raises': ['NoTiles', 'GridError'], 'pure': True},
+                      'get_tile': {'raises': ['HTTPClientError']}, 'handle': {'returns': 'opt[opaque]'},
+                      'InvalidSourceQuery': {'pure': True}, 'reraise_exception': {'always_raises': 'reraise'}},
+         raises={'BlankImage': True, 'InvalidSourceQuery': True, 'SourceError': True, 'NoTiles': True, 'GridError': True, 'Exception': True},
+         trace=[_tile_source_protocol])
+
+
+# ---- what goes into the upstream WMS request: WMSClient._query_req / retrieve ---------------------------------------------
+CW = 'mapproxy.client.wms:'
+cls(CW + 'WMSClient', fields=dict(request_template='opaque', http_client='opaque', http_method='opaque', lock='opaque',
+                                  fwd_req_params='opaque'))
+
+
+def _query_req_params(ex, st, post, result):
+    import z3
+    from pyvc.values import eq
+    q, fmt = post.env['query'], post.env['format']
+    self_h = st.heap[post.env['self'].ref]
+    cp = [e for i, e in T.evs(st, 'copy')]
+    sets = {e.name.split(':')[1]: e for i, e in enumerate(st.trace) if e.name.startswith('setattr:')}
+    dp = [e for i, e in T.evs(st, 'dimensions_for_params')]
+    up = [e for i, e in T.evs(st, 'update')]
+    ok = len(cp) == 1 and all(k in sets for k in ('bbox', 'size', 'srs', 'format')) and len(dp) == 1 and len(up) == 1 \
+        and up[0].args[-1].t.eq(dp[0].result.t) and result.t.eq(cp[0].result.t)
+    goal = z3.BoolVal(bool(ok))
+    if ok:
+        goal = z3.And(goal, eq(sets['bbox'].args[1], ex.opaque_field_at(st, sets['bbox'], q, 'bbox')),
+                      eq(sets['size'].args[1], ex.opaque_field_at(st, sets['size'], q, 'size')),
+                      eq(sets['format'].args[1], fmt),
+                      # the SRS parameter is the code of the query's SRS
+                      eq(sets['srs'].args[1], ex.opaque_field_at(st, sets['srs'], ex.opaque_field_at(st, sets['srs'], q, 'srs'), 'srs_code')),
+                      # dimension parameters: exactly those the query yields for the CONFIGURED forward list
+                      z3.BoolVal(dp[0].recv is not None and dp[0].recv.t.eq(q.t)), eq(dp[0].args[-1], self_h['fwd_req_params']))
+    yield ('upstream_request_parameters', goal,
+           'a copy of the request template gets bbox, size, srs code and format of the query; the only further parameters are '
+           'query.dimensions_for_params(self.fwd_req_params)')
+
+
+contract(CW + 'WMSClient._query_req', props=['C17'],
+         types=dict(query='opaque', format='opaque'), returns='opaque', default_callee='opaque',
+         opaque_fields=dict(QF), stable_fields=['bbox', 'size', 'srs', 'srs_code', 'dimensions'],
+         opaque_spec={'copy': {'pure': True}, 'dimensions_for_params': {'pure': True}, 'update': {'pure': True}},
+         opaque=['dimensions_for_params'],
+         trace=[_query_req_params])
